@@ -14,6 +14,18 @@ CHECKS = {
     "C07": ("exploration", "runtime monitoring: per-diagnostic position/message oracle (go/scanner token starts, FileSet identity, fix range, artefact patterns)",
             "Every diagnostic produced on the C01 corpus is checked against token/comment start offsets computed by go/scanner from the on-disk bytes, file identity, fix-range sanity and formatting-artefact patterns.",
             "go/scanner is the reference for token starts; checkers that never fire are listed in evidence", "5/C07"),
+    "C02": ("exploration", "runtime monitoring: repeated executions (fresh checker set per repeat, two processes, real CLI at -concurrency 1/16) with a byte-equality oracle on the ordered diagnostics",
+            "Map-iteration and scheduling nondeterminism is provoked by repetition: 8 (quick) / 16 (thorough) in-process repeats, a second process, and the real CLI run four times per workspace; any difference in the ordered (pos, text, fix) list is a violation.",
+            "P(miss) for a k-way map shuffle over n runs <= (1/k!)^(n-1); only (file,checker) pairs with >= 2 diagnostics can show an order difference (counted as distinct_nontrivial)", "5/C02"),
+    "C03": ("exploration", "runtime monitoring: seeded visit histories on one long-lived Context+checker set compared per visit with fresh-instance baselines; CLI argument permutations",
+            "Long-lived checkers are driven through seeded histories of (package,file) visits (same file twice, whole package in order, two-package ping-pong, import-less siblings) exactly as checkPackage does, and every visit is compared with a freshly built checker set on a fresh Context; the real CLI is run with permuted and split package arguments.",
+            "baseline and history share parsed ASTs; histories are bounded (10-60+ visits over a pool of <= 36/120 files per worker)", "5/C03"),
+    "C05": ("exploration", "runtime monitoring: structural fingerprints (AST content+identity, types.Info, Context, FileSet, registry/params) around every Check plus order-independence differential over three fresh loads",
+            "Before/after fingerprints bracket each Check on real and generated packages in which every rewriting checker fires; additionally three fresh parses are analysed in sorted, reversed and seeded checker order and each checker's diagnostics must agree.",
+            "reflection walk covers every exported and unexported field of go/ast nodes; types.Info entry identities are compared per file, map sizes per Check", "5/C05"),
+    "C20": ("exploration", "runtime monitoring: every diagnostic of an API-specific checker is resolved through types.Info (Uses/PkgName/Builtin) on generated namesake programs with real-API twins",
+            "Generated packages re-declare builtins and standard package names at package, import, local, parameter, field and type-parameter scope in same-shape and variadic shapes; a diagnostic whose flagged node only contains namesake callees is a violation; every table entry must be confirmed alive on the real API.",
+            "subject table checker->API is part of the harness; diagnostics without a candidate spelling are inconclusive", "5/C20"),
 }
 
 PENDING = {}
